@@ -25,6 +25,7 @@ import (
 type gsim struct {
 	names     []string // node names in address order
 	seeds     []string // seed node names
+	seedsOf   map[string][]string // nodes configured with a seed list of their own
 	nodes     map[string]*gnode
 	chans     map[[2]string][]vivid.Message
 	cut       map[[2]string]bool
@@ -243,7 +244,11 @@ func (s *gsim) launch(name string) {
 		n.id = fmt.Sprintf("%s#%d", name, n.starts)
 	}
 	var seedAddrs []string
-	for _, sd := range s.seeds {
+	seeds := s.seeds
+	if own, ok := s.seedsOf[name]; ok {
+		seeds = own // this node is configured with a seed list of its own
+	}
+	for _, sd := range seeds {
 		seedAddrs = append(seedAddrs, gaddr(sd))
 	}
 	opts := vivid.NewClusterOptions(vivid.WithClusterNodeID(n.id), vivid.WithClusterSeeds(seedAddrs), vivid.WithClusterFailureDetectionTimeout(s.fd))
